@@ -73,6 +73,15 @@ def coq_upissuers(line):
     return ("(run_upissuers %s [%s])" % (coq_tbl(cols[0]), items), r)
 
 
+def coq_cachekey(line):
+    op, a, r = D.split_line(line)
+    if op != "cachekey" or len(line) > 16000:
+        return None
+    pre, cert, ikh = a
+    pi = ("0001" + ikh if pre == "1" else "0000") + "%06x" % (0 if cert == "-" else len(cert) // 2) + ("" if cert == "-" else cert)
+    return ("(run_cachekey (tbl_sha [(%s, %s)]) %s %s %s)" % (cb(pi), cb(sha_hex(pi)), cbool(pre), cb(cert), cb(ikh)), r)
+
+
 def coq_roots(lines):
     """the first root lines (one loadroots, then setroots) as ONE term threading the state"""
     seq = []
@@ -143,6 +152,8 @@ def main(tier, seed, replay):
                 ups.setdefault(c[1].split(":")[0] + str("other" in c[1]), []).append(c)
         for k in sorted(ups):
             sample += rnd.sample(ups[k], min(len(ups[k]), 1 if tier == "quick" else 10))
+        cks = [c for c in (coq_cachekey(l) for l in mlines) if c]
+        sample += rnd.sample(cks, min(len(cks), 2 if tier == "quick" else 20))
         rc = coq_roots([l for l in mlines if l.startswith(("loadroots", "setroots"))])
         if rc:
             sample.append(rc)
@@ -155,13 +166,13 @@ def main(tier, seed, replay):
     elif not ok:
         print("# note: the Coq proof stage also failed: %s" % getattr(res, "coq_failure", "?"))
     subs = [l for l in work if l.startswith(("submit|", "submitdup|"))]
-    steps = [l for l in work if l.startswith(("submit|", "submitdup|", "setroots|", "loadroots|", "upissuers|"))]
+    steps = [l for l in work if l.startswith(("submit|", "submitdup|", "setroots|", "loadroots|", "upissuers|", "cachekey|"))]
     nontrivial = len(set(l for l in subs if "|none|" not in l)) + len(set(l for l in work if l.startswith(("setroots", "loadroots", "upissuers"))))
     faulted = [l for l in subs if "|issuerfail|=>|" in l]
     pick = lambda pred: [l[:300] for l in subs if pred(l)][:1]
     cov.update({
         "evaluations": len(steps) + st.get("monitors", 0), "distinct_nontrivial": nontrivial,
-        "rule": "one evaluation = one harness line (stat lines excluded): a real DER chain (crypto/x509-generated CA hierarchy: accepted/unaccepted/temporarily accepted roots, intermediates, precertificate signing certificates, self-signed special roots) posted to the real add-chain/add-pre-chain handler of a real ctlog.Log with the real sequencer, or a root reload/get-roots step, or the issuer loop of one request of the issuer scenario (fresh CA hierarchies; the backend fails the first Upload of every issuer/ object, or honours a request context cancelled before the request / at the k-th Fetch / at the k-th Upload of an issuer; the same chain is resubmitted until it is accepted; and the pending scenario: the same leaf through different valid chains while the first submission is still pending or in sequencing), or a monitor; non-trivial = the validation oracle returned a chain (sunlight's own decision logic was reached) or a root-state step; distinct by harness line",
+        "rule": "one evaluation = one harness line (stat lines excluded): a real DER chain (crypto/x509-generated CA hierarchy: accepted/unaccepted/temporarily accepted roots, intermediates, precertificate signing certificates, self-signed special roots) posted to the real add-chain/add-pre-chain handler of a real ctlog.Log with the real sequencer, or a root reload/get-roots step, or the issuer loop of one request of the issuer scenario (fresh CA hierarchies; the backend fails the first Upload of every issuer/ object, or honours a request context cancelled before the request / at the k-th Fetch / at the k-th Upload of an issuer; the same chain is resubmitted until it is accepted; and the pending scenario: the same leaf through different valid chains while the first submission is still pending or in sequencing; and the re-keyed scenario: two precertificate chains with a byte-identical TBSCertificate and different issuer keys), or computeCacheHash on one entry, or a monitor; non-trivial = the validation oracle returned a chain (sunlight's own decision logic was reached) or a root-state step; distinct by harness line",
         "traces_validated_against_impl": max(0, len(steps) - st.get("diffs", 0)), "distinct_cases": len(set(steps)),
         "impl_property_monitors": st.get("monitors", 0), "monitor_failures": st.get("monitor_failures", 0),
         "model_impl_differences": st.get("diffs", 0), "vm_compute_crosschecked": ncross,
@@ -177,6 +188,9 @@ def main(tier, seed, replay):
                              "second_chain_stored_before_the_round": stats.get("pending:second-chain-stored-before-the-round", 0),
                              "kinds": sorted(set(k.split(":")[1].split(",")[0] for k in stats if k.startswith("pending:") and k.endswith((",pool", ",sequencing")))),
                              "what": "the same leaf through 4 submissions while the first is pending (in the current pool, or in the pool of a round held at its first upload): first chain, a second valid chain (re-issued / cross-signed intermediate or precertificate signing certificate: same subject and key), the first chain again, a third chain; then a further path after sequencing (cache). mon_issuers on each (entry fingerprints = the first chain's; every chain certificate of THIS accepted submission stored), mon_issuers_all over every submission answered 200; replayed by the model as submitdup/upissuers lines"},
+        "rekeyed_scenario": {"pairs": sum(v for k, v in stats.items() if k.startswith("rekeyed:")),
+                             "by_kind_and_timing": {k.split(":", 1)[1]: v for k, v in stats.items() if k.startswith("rekeyed:")},
+                             "what": "two accepted CAs with the same subject DN and subject key identifier but different keys (re-keyed root, re-keyed intermediate, one precertificate whose signing certificate's key is certified under both re-keyed intermediates) sign the same precertificate template: byte-identical defanged TBSCertificate, different issuer_key_hash; both chains submitted in the same round / the second while the first is in sequencing / the second after the first was sequenced; judged by mon_leaf, mon_sct, mon_twin on each and mon_rekeyed (two leaves, two indexes); cachekey lines replay computeCacheHash against Submit/IssuerModel.v dedup_key"},
         "samples": pick(lambda l: "|=>|200:" in l and "|chain|" in l) + pick(lambda l: "|=>|200:" in l and "|prechain|" in l)
                    + pick(lambda l: "|=>|400:" in l and "|none|" not in l) + [l[:300] for l in work if l.startswith("setroots")][:1]
                    + [l[:120] + " ... " + l[l.index("|=>|") - 60:] for l in work if l.startswith("upissuers|") and "|=>|err" in l][:1]
